@@ -233,7 +233,9 @@ pS(t: String, x: String): () == { stdout << t << x << newline; }
 
 
 def render_case(k, case):
-    """case = (itype, body) -> Aldor text of cK and the call"""
+    """case = (itype, body) -> Aldor text of cK and the call; ('RAW', text, lines) is a template with @K@ placeholders"""
+    if case[0] == 'RAW':
+        return case[1].replace('@K@', str(k))
     it, body = case
     r = Render(it)
     text = r.block(body, 1).replace('TAG', '"K%d:"' % k)
@@ -593,6 +595,8 @@ class Eval:
 
 def expected(k, case):
     """(lines, uncaught) for case k; raises OutOfSubset"""
+    if case[0] == 'RAW':
+        return [l.replace('@K@', str(k)) for l in case[2]], None
     it, body = case
     ev = Eval(it, 'K%d:' % k)
     env = Env()
